@@ -111,6 +111,31 @@ def family(rng, quick):
         g = mk("u%d" % len(gs), [(a, "U3"), (b, tb), (c, tc)], union=True)
         if g:
             gs.append(g)
+    # prefixes made of a NULLABLE production N (P2 = "a"*), mentioned once, twice in one element, in two elements, and the
+    # look-alike where a consuming token follows
+    tn = [("after-nullable-prod", lambda R, N: seq(N, R, A)),
+          ("after-nullable-prod-twice-in-one-group", lambda R, N: seq(grp("once", seq(N, grp("opt", B), N)), R, A)),
+          ("after-two-nullable-prods", lambda R, N: seq(N, N, R)),
+          ("after-nullable-prod-in-opt", lambda R, N: seq(grp("opt", seq(N, N)), R, L)),
+          ("after-nullable-prod-then-token", lambda R, N: seq(N, A, R)),
+          ("nullable-prod-between-alternatives", lambda R, N: alt(seq(A, B), seq(N, N, R)))]
+    for ti, (tname, fn) in enumerate(tn):
+        for target in ("P0", "P1"):
+            for p1t in range(0, len(TEMPLATES) - 1, 3):
+                unions = {"U0": ["P0"], "U1": ["P1"], "U2": ["P2"]}
+                N = cap("N", "unions", {"op": "union", "u": "U2"})
+                R = cap("K", "union", {"op": "union", "u": "U" + target[1:]})
+                body0 = fn(R, N)
+                R1 = cap("K", "union", {"op": "union", "u": "U0"})
+                body1 = TEMPLATES[p1t][1](R1) if TEMPLATES[p1t][1] else seq(cap("T", "string", A), grp("opt", B))
+                f1 = [P.F("K", "union", "U0")] if TEMPLATES[p1t][1] else [P.F("T", "string")]
+                body2 = grp("star", cap("Z", "strings", A))
+                try:
+                    g = P.mk_grammar("n%d" % len(gs), [("P0", body0, [P.F("N", "unions", "U2"), P.F("K", "union", "U" + target[1:])]), ("P1", body1, f1), ("P2", body2, [P.F("Z", "strings")])], unions=unions, ks=(1,))
+                except ValueError:
+                    continue
+                g["shape"] = [(tname, target), (TEMPLATES[p1t][0], "P0"), ("nullable", "")]
+                gs.append(g)
     return gs
 
 
